@@ -164,6 +164,41 @@ theorem C01_bytesC (p : Policy) (hp : PlainC p.ensureInit) (input : Bytes) :
         | doctype => rw [htt] at hs; exact hs.elim
     · exact .inr (.inr ⟨hc, hac⟩)
 
+/-- (per-input form)  **C01 (byte level), comments allowed or not**: for every policy without AllowUnsafe and without
+    a raw-text element on its allowlist, every token an HTML tokenizer finds in the returned bytes
+    is a text, a tag of an allowed element, or — only if the policy allows comments — a comment;
+    never a doctype -/
+theorem C01_bytesC_on (p : Policy) (input : Bytes) (hp : PlainOn p.ensureInit (tokenize input)) :
+    ∀ k ∈ tokenize (p.sanitizeCore input),
+      k.tt = .text ∨ (isTag k = true ∧ allowsElement p.ensureInit k.data = true) ∨
+      (k.tt = .comment ∧ p.ensureInit.allowComments = true) := by
+  intro k hk
+  obtain ⟨toks, _, hrt, hf⟩ := sanitizeTokens_roundtripOn (tokenize input) hp (tokenize_wf input)
+  unfold Policy.sanitizeCore at hk
+  rw [hrt] at hk
+  rcases mem_coalesce (toks.map reread) [] k hk with h | ⟨hmem, hne⟩
+  · exact .inl h.1
+  · obtain ⟨k', hk', rfl⟩ := List.mem_map.mp hmem
+    obtain ⟨hseg, t, _, hor⟩ := hf k' hk'
+    rw [reread_tt] at hne ⊢
+    rcases hor with (⟨hs, hor⟩) | ⟨hc, _, _, hac⟩
+    · rcases hor with h | ⟨_, _, hall, _⟩
+      · exact absurd h.1 hne
+      · have hnc : k'.tt ≠ .comment := by
+          intro h; unfold SegOK at hs; rw [h] at hs; exact hs
+        rw [reread_of_ne k' hnc]
+        refine .inr (.inl ⟨?_, hall⟩)
+        unfold SegOK at hs
+        unfold isTag
+        cases htt : k'.tt with
+        | text => exact absurd htt hne
+        | start => rfl
+        | end_ => rfl
+        | selfClosing => rfl
+        | comment => rw [htt] at hs; exact hs.elim
+        | doctype => rw [htt] at hs; exact hs.elim
+    · exact .inr (.inr ⟨hc, hac⟩)
+
 /-- non-vacuity: a policy that allows comments is in the class, and a comment comes through -/
 example :
     let p : Policy := { initialized := true, allowComments := true, elsAndAttrs := [(b!"b", [])], setOfElementsAllowedWithoutAttrs := [b!"b"] }
